@@ -65,6 +65,17 @@ Theorem C22_ids_unique :
 Proof. exact @ids_unique_run. Qed.
 Print Assumptions C22_ids_unique.
 
+(** Two stores lead a region in DIFFERENT terms (election safety), so the ids
+    they hand out must differ whatever their request counters are - with no
+    bound on the number of requests a store has served: the counter is masked
+    to 32 bits and never reaches the term half of the id. *)
+Theorem C22_ids_of_different_terms_differ :
+  forall (t1 t2 : N) (p1 p2 : pipe N),
+    t1 < 2^32 -> t2 < 2^32 -> t1 <> t2 ->
+    fst (next_id t1 p1) <> fst (next_id t2 p2).
+Proof. exact next_id_terms_differ. Qed.
+Print Assumptions C22_ids_of_different_terms_differ.
+
 (** Answered once: completing a proposal removes its waiter; a later entry with
     the same id completes nobody. *)
 Theorem C22_answered_once :
